@@ -175,6 +175,13 @@ def generate():
     if [ast.unparse(s) for s in b] != norm("d = defer.Deferred()\nself.transaction.addTransaction(d, tid)\nreturn d"):
         tw.fail(fn, "_buildResponse has an unrecognised shape")
 
+    fn = tw.func(P, "close")
+    t = texts(fn)
+    guard = norm("if self.transport and hasattr(self.transport, 'close'):\n    self.transport.close()")
+    if t[:1] != guard or len(t) > 2 or (len(t) == 2 and t[1] not in ("self._connected = False", "self._connected = True")):
+        tw.fail(fn, "close() has an unrecognised shape")
+    D["ac_close_clears"] = t[1:] == ["self._connected = False"]
+
     # ---- the unit filter of the framers (base class helper used by processIncomingPacket)
     fr = Src("pymodbus/framer/__init__.py")
     fn = fr.func("ModbusFramer", "_validate_unit_id")
@@ -225,7 +232,7 @@ def generate():
         return str(x)
     fields = ["ac_tid_init", "ac_tid_inc", "ac_tid_mask", "ac_init_connected", "ac_made_connected",
               "ac_build_guard", "ac_build_exn", "ac_handle_by_reply_tid", "ac_lost_clears", "ac_lost_clear_first",
-              "ac_lost_loop", "ac_lost_exn", "ac_unit_default", "ac_unit_wild", "ac_unit_wild_on_frame"]
+              "ac_lost_loop", "ac_lost_exn", "ac_close_clears", "ac_unit_default", "ac_unit_wild", "ac_unit_wild_on_frame"]
     out = [
         "(* GENERATED by /verif/gen/gen_async.py from /repo's current source on every run. Do not edit. *)",
         "From PM.theories Require Import Base AsyncClient.",
